@@ -53,6 +53,11 @@ API_PATHS = [
     ("mol.bare", "DataPath(MapOrListValue(), MapOrListValue())", [], "dl"),
     ("map.key_eq", "DataPath(MapValue(key=k), 'b')", [("k", "str")], "dm"),
     ("map.key_ne", "DataPath(MapValue(key=Key.not_equal_to(k)))", [("k", "str")], "dm"),
+    ("map.key_int", "DataPath(MapOrListValue(), MapValue(key=i))", [("i", "int")], "di"),
+    ("map.key_int.root", "DataPath(MapValue(key=i), 'b')", [("i", "int")], "di"),
+    ("map.key_bool", "DataPath(MapOrListValue(), MapValue(key=bl))", [("bl", "bool")], "di"),
+    ("map.key_float", "DataPath(MapOrListValue(), MapValue(key=1.0))", [], "di"),
+    ("list.index_int.under_fanout", "DataPath(MapOrListValue(), ListValue(index=n))", [("n", "int")], "di"),
     ("map.key_in", "DataPath(MapValue(key=Key.in_([k, 'l'])), 0)", [("k", "str")], "dm"),
     ("map.key_dtype", "DataPath(MapValue(key=Key.dtype.equal_to(str)))", [], "di"),
     ("map.value", "DataPath(MapValue(value=Value.greater_than(t)))", [("t", "int")], "dm"),
@@ -87,6 +92,8 @@ SPEC_PATHS = [
     ("mol.default", "({}, {'type': 'map_or_list_value'})", [], "dl"),
     ("key.short", "({'type': 'map_value', 'key.equal_to': k}, 'b')", [("k", "str")], "dm"),
     ("key.ne", "({'type': 'map_value', 'key.not_equal_to': k},)", [("k", "str")], "dm"),
+    ("key.int", "({}, {'type': 'map_value', 'key.equal_to': i})", [("i", "int")], "di"),
+    ("key.int.long", "({}, {'type': 'map_value', 'condition': {'key.equal_to': i}})", [("i", "int")], "di"),
     ("value.long", "({'type': 'map_value', 'value': {'value.gt': t}},)", [("t", "int")], "dm"),
     ("key+value+cond", "({'type': 'map_value', 'condition': {'value.truthy': None}, 'key': {'key.not_equal_to': k}, 'value': {'value.dtype.in': ['int', 'dict']}},)", [("k", "str")], "dm"),
     ("index.lt", "('l', {'type': 'list_value', 'index.less_than': n})", [("n", "int")], "dm"),
@@ -98,6 +105,7 @@ SPEC_PATHS = [
 ]
 DOCS12 = dict(DOCS)
 DOCS12['ds'] = "[u1, {'a': u2}, [u3]]"
+DOCS12['di'] = "{True: {'b': u1, 0: 5}, 0: u2, 2: {'a': u2, 'b': 3, 2: 9}, -2: u3, None: [u3, {1: 0}, 7], 'b': [u1, 8, 9]}"
 
 
 def cases(ctx):
